@@ -36,13 +36,13 @@ REL = [f"{OPS}/ws2dgu.py::ws2dgu@rel", f"{OPS}/ws2dpgu.py::ws2dpgu@rel"]
 # robust=True is not covered relationally: after the boolean-mask selection r_arr[w_temp != 0] the lockstep similarity of the
 # selections (np.median over a data-dependent length) is not provable by the per-statement lemmas and the run pairs diverge
 # (>60 open queries); the robust branch stays with the bounded stand-in (standin/c02.py, DESIGN.md section 0).
-for rb, tag in (("const(False)", "rel"),):
+for rb, tag in (("const(False)", "rel"), ("const(True)", "rel_robust")):
     contract(f"{OPS}/ws2dwcv.py::ws2dwcv", variant=tag, fmodel="U",
         params={"y": "real[N]", "nodata": "real", "llas": "real[M]", "robust": rb, "out": "i2[N]", "lopt": "real[1]"}, modifies=["out", "lopt"],
         requires=REQ,
         ensures={"same_band_and_lambda": "implies(n_1 > 4, forall(k, 0, N, out_1[k] == out_2[k]) and same(lopt_1[0], lopt_2[0]))",
                  "same_branch": "(n_1 > 4) == (n_2 > 4)"},
-        options={"rel_vary": ["y", "nodata"]}, call_variant={"ws2d": "U"}, props=("C02",))
+        options={"rel_vary": ["y", "nodata"], "rel_lockstep": rb == "const(True)"}, call_variant={"ws2d": "U"}, props=("C02",))
     contract(f"{OPS}/ws2dwcvp.py::ws2dwcvp", variant=tag, fmodel="U",
         params={"y": "real[N]", "nodata": "real", "p": "real", "llas": "real[M]", "robust": rb, "out": "i2[N]", "lopt": "real[1]"}, modifies=["out", "lopt"],
         requires=REQ,
